@@ -46,9 +46,44 @@ def exception_premises(P):
             for lv in P.written_lvalues(s):
                 if on_path(lv, 'auth_username'):
                     writers.append(s)
+    def cond_value(f, c, guards):
+        """truth of condition c given relations known to hold (the writer's dominating guards): True / False / None"""
+        from .model import rel as _rel
+        if not isinstance(c, dict):
+            return None
+        if c.get('k') == 'bin' and c.get('op') == '||':
+            a, b = cond_value(f, c['l'], guards), cond_value(f, c['r'], guards)
+            return True if (a is True or b is True) else (False if (a is False and b is False) else None)
+        if c.get('k') == 'bin' and c.get('op') == '&&':
+            a, b = cond_value(f, c['l'], guards), cond_value(f, c['r'], guards)
+            return False if (a is False or b is False) else (True if (a is True and b is True) else None)
+        rt, rf = _rel(c, True), _rel(c, False)
+        for g in guards:
+            if sx(g[0]) == sx(rt[0]) and sx(g[2]) == sx(rt[2]):
+                if g[1] == rt[1]:
+                    return True
+                if g[1] == rf[1]:
+                    return False
+        return None
+
     for s in writers:
-        def sets_ident(t):
-            return t.ev['k'] == 'bitset' and t.ev.get('bit') == 'IAUTH_GOT_IDENT'
+        wguards = s.fn.guards(s.bid)
+
+        def sets_ident(t, s=s, wguards=wguards):
+            if t.ev['k'] != 'bitset':
+                return False
+            if t.ev.get('bit') == 'IAUTH_GOT_IDENT':
+                return True
+            # the bit chosen into a local by `cond ? GOT_IDENT : other`: decided by what is known where the ident was stored
+            be = t.ev.get('bitexpr')
+            if isinstance(be, dict) and be.get('k') == 'var':
+                d = s.fn.single_def(be['name'])
+                v = d[1] if d else None
+                if isinstance(v, dict) and v.get('k') == 'cond':
+                    tv = cond_value(s.fn, v['c'], wguards)
+                    pick = v['t'] if tv is True else v['f'] if tv is False else None
+                    return isinstance(pick, dict) and pick.get('k') == 'enum' and pick.get('name') == 'IAUTH_GOT_IDENT'
+            return False
         if s.fn.path_avoiding(s, sets_ident) is not None:
             ok = False
             why.append('write of auth_username at %s not followed by GOT_IDENT on all paths' % s.loc)
